@@ -398,7 +398,7 @@ pub fn base_spec(shape: usize, packaging: Packaging, comp: Comp, seed: u32) -> C
         return spec;
     }
     if shape == 5 {
-        // "big directory": 3000 entries, entry data and a plain value store of tens of KiB (every
+        // "big directory": 10 000 entries, entry data and a plain value store above 64 KiB each (every
         // part of the directory pack above the 4 KiB below which the reader copies into memory)
         let mut spec = base_spec(1, packaging, comp, seed);
         spec.extra_packs.clear();
@@ -408,7 +408,8 @@ pub fn base_spec(shape: usize, packaging: Packaging, comp: Comp, seed: u32) -> C
                 common: vec![PropSpec { kind: PKind::UInt, constant: false }, PropSpec { kind: PKind::Array { fixed: 2, store: 0 }, constant: false }],
                 variants: vec![],
                 sort: vec![],
-                entries: (0..3000u64).map(|i| RawEntry { variant: 0, vals: vec![rv(i * 7 + 1, 0, 0), rv(0, 10, i as u32)] }).collect(),
+                // 10 000 entries: more than 64 KiB of entry data (and of value-store data)
+                entries: (0..10_000u64).map(|i| RawEntry { variant: 0, vals: vec![rv(i * 7 + 1, 0, 0), rv(0, 10, i as u32)] }).collect(),
                 windows: vec![Win::Whole],
             }],
             linked: false,
